@@ -622,32 +622,13 @@ Examples:
 def _load(path, monitor=None, verbose=False): #XXX: duplicate in mystic.munge?
     '''load npts, params, and cost into monitor from file at given path'''
 
-    base = os.path.splitext(os.path.basename(path))[0]
-    root = os.path.realpath(os.path.dirname(path))
-
-    string = '''
-from {base} import params as ___params, cost as ___cost;
-try: from {base} import npts as ___npts;
-except ImportError: ___npts = None;
-import sys;
-sys.modules.pop('{base}', None);
-'''.format(base=base)
-
+    #NOTE: read the file at the given path (not a module of the same name)
+    from mystic.munge import read_import
     try:
-        sys.path.insert(0, root)
-        _globals = {}
-        _globals.update(globals())
-        code = compile(string, '<string>', 'exec')
-        exec(code, _globals)
-        npts = _globals['___npts'] if '___npts' in _globals else None
-        params = _globals['___params'] if '___params' in _globals else None
-        cost = _globals['___cost'] if '___cost' in _globals else None
-        del _globals
+        params, cost, npts = read_import(path, 'params', 'cost', 'npts')
+        if params is None or cost is None: raise ImportError(path)
     except: #XXX: should only catch the appropriate exceptions
         raise OSError("error reading '{path}'".format(path=path))
-
-    finally:
-        sys.path.remove(root)
 
     _new = monitor is None or not verbose
     m = Monitor() if _new else monitor
